@@ -15,7 +15,7 @@ def nontrivial(case, impl):
     s = _unhex(f[2] if f[0] == "u" else f[3])
     # non-trivial: the intended string contains a character that needs escaping
     if any(c in s for c in b'\\"\n\t\r\f'):
-        return (f[0], f[1] if f[0] == "e" else "", s)
+        return (f[0], f[1] if f[0] in ("e", "b") else "", s)
     return None
 
 
@@ -25,7 +25,7 @@ def describe(case, impl, model, spec):
         return {"kind": "ParseZqlString", "literal": _unhex(f[1]).decode("utf-8", "replace"),
                 "intended": _unhex(f[2]).decode("utf-8", "replace"), "impl": impl, "model": model, "spec": spec,
                 "case": case}
-    return {"kind": "ast.Parse+EvalBool", "op": f[1], "literal": _unhex(f[2]).decode("utf-8", "replace"),
+    return {"kind": "ast.Parse+EvalBool" if f[0] == "e" else "Store.QueryIds on a bolt store (`id <op> lit` and `name <op> lit`, one entity per value)", "op": f[1], "literal": _unhex(f[2]).decode("utf-8", "replace"),
             "intended": _unhex(f[3]).decode("utf-8", "replace"), "fields": f[4:], "impl": impl, "model": model,
             "spec": spec, "case": case}
 
@@ -36,7 +36,7 @@ RULE = ("all strings over the 9-character alphabet {a n t \\ \" space LF TAB x} 
         "(thorough), plus random strings up to 24 characters over a wider alphabet; each as a ParseZqlString case "
         "(random per-occurrence choice of raw or escaped control character) and as an end-to-end ast.Parse + "
         "EvalBool case in a random operand position (= != in not-in contains not-contains) against the intended "
-        "string and its plausible misreadings; non-trivial = intended string contains a character that needs "
+        "string and its plausible misreadings; for every string of length <= 2 and one longer string in eight additionally a bolt-store case: one entity per (non-empty, distinct) candidate value with id = name = value, `id <op> literal` and `name <op> literal` run through Store.QueryIds (the filter text is exactly that comparison, so any shortcut the store takes before parsing is on the path); non-trivial = intended string contains a character that needs "
         "escaping; distinct = (kind, operator, string)")
 
 
@@ -45,6 +45,7 @@ def run(ctx, replay_cases=None):
         "strings.NewReplacer / strings.Replace / TrimPrefix / TrimSuffix behave as the two interpreters in Zql/Unescape.lean (exercised by the correspondence on every run)",
         "the ANTLR lexer hands the STRING token text to the listener unchanged (exercised by the end-to-end cases)",
         "input strings are valid UTF-8 (ANTLR works on code points)",
+        "bolt-store cases: entity ids are non-empty byte strings usable as bbolt keys; the store resolves `id` to the entity key and `name` to the stored string field (C01's subject)",
     ]
     return common.standard_flow(ctx, "c11", MODULE, THEOREMS, MATCHERS, nontrivial, describe, RULE,
                                 table_obligations=["table_is_good (Generated/UnescapeTable.lean, regenerated from zitiql/util.go)"],
